@@ -549,6 +549,10 @@ func exec(op string) (res string) {
 		return "roundtrip"
 	case "nego":
 		return nego(w[1], w[2])
+	case "held":
+		return execHeld(w[1], w[2:])
+	case "flight":
+		return execFlight(w[1], w[2], w[3:])
 	}
 	return "bad-op"
 }
@@ -906,6 +910,21 @@ func main() {
 		mult = 12
 	}
 	streams := []int{0, 1, 2, 127, 128, 255, 256, 32767, -1}
+
+	// 00. ownership of the buffers that cross the compressor boundary: held results (codec level, framer
+	//     level) and responses in flight on real connections (see held.go)
+	for i := 0; i < 700*mult; i++ {
+		op, cls := genHeld(r, i%10 == 0)
+		out.Case(op, exec(op), cls, true)
+	}
+	nFlight := 160 * mult
+	if nFlight > 1200 {
+		nFlight = 1200
+	}
+	for i := 0; i < nFlight; i++ {
+		op, cls := genFlight(r)
+		out.Case(op, exec(op), cls, true)
+	}
 
 	// 0. body SHAPES, spec-backed ops first (the check keeps the first 50 disagreements only)
 	maxPow, shapeMax := uint(17), 1<<17+1
